@@ -10,7 +10,7 @@ import time
 import driver as D
 
 VERIF = D.VERIF
-EVID = os.path.join(VERIF, 'evidence')
+EVID = os.environ.get('VERIF_EVIDENCE_DIR') or os.path.join(VERIF, 'evidence')
 VIOL = os.path.join(VERIF, 'build', 'violations')
 REPLAY_BIN = os.path.join(VERIF, 'replay', 'target', 'debug', 'memterm-replay')
 
